@@ -592,6 +592,34 @@ func c10Records(w *World, r *Report) {
 					}
 				}
 			}
+			// table-driven dispatch: a row {QueryTypeX, WrapDnsResponseX} or a map entry QueryTypeX: WrapDnsResponseX
+			rowObjs := func(exprs []ast.Expr) {
+				var objs []types.Object
+				hasWrapper := false
+				for _, e := range exprs {
+					if kv, ok := e.(*ast.KeyValueExpr); ok {
+						e = kv.Value
+					}
+					if obj := usedObj(util.TypesInfo, e); obj != nil {
+						if f, isF := obj.(*types.Func); isF && strings.HasPrefix(f.Name(), "WrapDnsResponse") {
+							hasWrapper = true
+						} else {
+							objs = append(objs, obj)
+						}
+					}
+				}
+				if hasWrapper {
+					for _, o := range objs {
+						covered[o] = true
+					}
+				}
+			}
+			if cl, ok := x.(*ast.CompositeLit); ok {
+				rowObjs(cl.Elts)
+			}
+			if kv, ok := x.(*ast.KeyValueExpr); ok {
+				rowObjs([]ast.Expr{kv.Key, kv.Value})
+			}
 			return true
 		})
 	}
